@@ -1588,7 +1588,10 @@ class Executor:
             ax.append(smt.forall([j, j2], z3.Implies(z3.And(0 <= j, j < j2, j2 < Len(R_)), idx(j) < idx(j2)),
                                 patterns=[z3.MultiPattern(idx(j), idx(j2))]))
             ax.append(smt.forall([j], z3.Implies(z3.And(0 <= j, j < Len(S0), Fk(j), Pk(j)),
-                                                z3.And(0 <= inv(j), inv(j) < Len(R_), idx(inv(j)) == j)),
+                                                z3.And(0 <= inv(j), inv(j) < Len(R_), idx(inv(j)) == j,
+                                                       # an element that passes the filter is in the result (stated outright: deriving it
+                                                       # needs the term At(R_, inv(j)), which nothing else would create)
+                                                       At(R_, inv(j)) == Ek(j), Contains(R_, Ek(j)))),
                                 patterns=[At(S0, j)]))
             # nothing passes the filter  <=>  empty result (helps `len(waiting) > 0` tests)
             ax.append(smt.forall([j], z3.Implies(z3.And(0 <= j, j < Len(S0), Fk(j), Pk(j)), Len(R_) > 0),
